@@ -8,7 +8,7 @@ RULES = ["lowercase", "UPPERCASE", "PascalCase", "camelCase", "snake_case", "SCR
 
 # identifier shapes: one word, many words, digits, single letters, acronyms, underscores in odd places
 FIELD_IDENTS = ["id", "user_id", "first_last_name", "a", "x1", "user_2fa", "http_url", "_private", "a__b", "trailing_",
-                "userName", "myHTTPServer", "URL", "x_y_z", "field1_name2", "i"]
+                "userName", "myHTTPServer", "URL", "x_y_z", "field1_name2", "i", "__"]
 VARIANT_IDENTS = ["Active", "InProgress", "A", "HTTPError", "V2", "Ok", "MyHTTPServer", "Snake_Case", "lower", "X_Y",
                   "ABC", "A1B2", "NotFound404", "IoError", "x", "UserID"]
 
@@ -177,8 +177,6 @@ def rand_item(rng, kind, clean, used):
     metas = []
     for _ in range(nattrs):
         m = rand_meta(rng, clean, have_rename)
-        if clean and m == ["skip"] and kind == "enum":
-            m = ["other", "default"]
         have_rename |= m[0] == "rename"
         metas.append(m)
     # split over one or several #[serde(..)]
@@ -191,17 +189,9 @@ def rand_item(rng, kind, clean, used):
 
 def rand_container(rng, clean):
     kind = rng.choice(["struct", "enum"])
-    if clean and kind == "enum":
-        # rules on which field rule and variant rule agree for ordinary variant names
-        rule = rng.choice([None, None, "UPPERCASE", "PascalCase", "camelCase"])
-    else:
-        rule = rng.choice([None] + RULES)
+    rule = rng.choice([None] + RULES)
     used = set()
     items = [rand_item(rng, kind, clean, used) for _ in range(rng.randint(1, 5))]
-    if clean and kind == "enum":
-        for it in items:
-            if "_" in it["ident"] or it["ident"][0].islower():
-                it["ident"] = "V" + it["ident"].replace("_", "")
     return {"kind": kind, "cattrs": cattrs_for(rule, rng.randrange(4)), "items": items, "dfc": "snake_case"}
 
 
